@@ -365,3 +365,29 @@ def native_float_in(module):
                 return real_float(x)
         return real_float(x)
     module.float = _float
+
+
+def seed_independent(make_transcript, seeds=range(0, 12)):
+    """Real-mode side of the hash-seed obligations: the transcript must be identical in
+    sub-processes started with different PYTHONHASHSEED values."""
+    import subprocess
+    out = os.environ.get('VF_SEED_CHILD')
+    if out:
+        with open(out, 'w') as f:
+            f.write(repr(make_transcript()))
+        return True
+    seen = []
+    for k in seeds:
+        fd, path = tempfile.mkstemp(prefix='vf-seed-')
+        os.close(fd)
+        env = dict(os.environ, PYTHONHASHSEED=str(k), VF_SEED_CHILD=path)
+        subprocess.run([sys.executable, '-m', 'vf.replay'] + sys.argv[1:], env=env,
+                       capture_output=True, text=True, timeout=120)
+        with open(path) as f:
+            seen.append(f.read())
+        os.unlink(path)
+    if any(not t for t in seen):
+        raise RuntimeError('hash-seed replay child produced no transcript')
+    if len(set(seen)) > 1:
+        log('transcripts differ across PYTHONHASHSEED values:', sorted(set(seen))[:2])
+    return len(set(seen)) == 1
